@@ -4927,6 +4927,8 @@ def ref_apply(ex, st, ref, op, paths, data, opts=None):
         if not parent_ok():
             return ("err", None)
         t = ref_find(ex, st, ref, paths[1])
+        if t is not None and t["kind"] == "l" and t.get("tkind") is None:
+            return ("skip", None)  # a link to a dangling link: the kind it reports is not determined by the documentation
         ref["nodes"].append(dict(key=list(p), kind="l", content=None, alt=list(paths[1]), tkind=((t["kind"] if t["kind"] != "l" else t.get("tkind")) if t else None),
                                  mode=BV(32, False, 0o120777), uid=BV(32, False, 1000), gid=BV(32, False, 1000)))
         return ("ok", p)
